@@ -26,6 +26,7 @@ def sh(cmd, cwd=None, timeout=900):
 
 def main():
     pid, x = sys.argv[1], sys.argv[2]
+    name = None
     props = [pid]
     patch = Path(f"/tmp/wt/out/{pid}/{x}/patch.diff")
     src = patch.parent
@@ -36,6 +37,12 @@ def main():
             props = args.pop(0).split(",")
         elif a == "--patch":
             patch = Path(args.pop(0))
+        elif a == "--src":
+            src = Path(args.pop(0))
+            if patch.parent != src and not any(x == "--patch" for x in sys.argv):
+                patch = src / "patch.diff"
+        elif a == "--name":
+            name = args.pop(0)
     wt = Path(f"/tmp/vs/{pid}{x}")
     sh(f"git -C /repo worktree remove --force {wt}")
     shutil.rmtree(wt, ignore_errors=True)
@@ -94,7 +101,7 @@ def main():
             fired[p] = {"rc": rc, "reports": lines}
         sh("git checkout -- .", cwd=wt)
         result["checks"] = fired
-        dest = V / "seeded" / f"{pid}_{x}"
+        dest = V / "seeded" / (name or f"{pid}_{x}")
         if ok:
             dest.mkdir(parents=True, exist_ok=True)
             (dest / "patch.diff").write_text(diff)
